@@ -443,7 +443,7 @@ func (v *Verifier) generate(bc *BoundContract) *FuncResult {
 	}
 	loopW := map[string]map[string]bool{}
 	for iter := 0; iter < 8; iter++ {
-		c := &Ctx{V: v, sc: newScript(), keys: map[string]*heapInfo{}, loopW: loopW, callSeq: map[string]int{}, typeIDs: map[string]int{}, top: fn, trusted: map[string]bool{}}
+		c := &Ctx{V: v, sc: newScript(), keys: map[string]*heapInfo{}, loopW: loopW, callSeq: map[string]int{}, typeIDs: map[string]int{}, top: fn, trusted: map[string]bool{}, pfSigs: map[string]string{}}
 		st := newState()
 		c.key("$clk", SInt)
 		c.sc.assert(mk(SBool, "(>= %s 0)", c.clk(st).S))
